@@ -151,10 +151,13 @@ func (f *Select) reflectClauses(s *slip.Scope, clauses slip.List, depth int) (re
 		}
 	}
 	chosen, recv, ok := reflect.Select(cases)
+	var v any
 	if ok {
-		result = evalClause(s, clauses[chosen].(slip.List), recv.Interface(), depth)
+		v = recv.Interface()
 	}
-	return
+	// A closed channel delivers nil to its clause as it does when select is
+	// able to use the go select statement.
+	return evalClause(s, clauses[chosen].(slip.List), v, depth)
 }
 
 func evalClause(s *slip.Scope, clause slip.List, v any, depth int) (result slip.Object) {
